@@ -4,6 +4,7 @@ package main
 
 import (
 	"fmt"
+	"go/token"
 	"go/types"
 	"strings"
 
@@ -1145,7 +1146,38 @@ func rulePAIR6(w *World) []Ob {
 					for _, r := range *v.Referrers() {
 						if ci, ok := r.(ssa.CallInstruction); ok && len(ci.Common().Args) > 0 && ci.Common().Args[0] == v {
 							if m := ci.Common().StaticCallee(); m != nil && m.Name() != "Encode" && m.Name() != "Close" {
-								cfgCall = m.Name()
+								// an opt-in feature: the reconfiguration happens only under a condition that comes from
+								// the caller (an option value handed in as parameter, field or captured variable)
+								optIn := false
+								for _, g := range guardsOf(ci.(ssa.Instruction).Block()) {
+									cond, _ := flattenCond(g.Cond, g.Pol)
+									if _, isConst := cond.(*ssa.Const); isConst {
+										continue
+									}
+									switch src := resolve(cond).(type) {
+									case *ssa.Parameter, *ssa.FreeVar:
+										optIn = true
+									default:
+										if _, _, isField := fieldOfLoad(src); isField {
+											optIn = true
+										}
+									}
+								}
+								if !optIn && len(ci.Common().Args) > 1 {
+									derived := true
+									for _, a := range ci.Common().Args[1:] {
+										if _, isConst := a.(*ssa.Const); isConst {
+											derived = false
+										}
+										if !valueFromOption(a, 0) {
+											derived = false
+										}
+									}
+									optIn = derived
+								}
+								if !optIn {
+									cfgCall = m.Name()
+								}
 							}
 						}
 					}
@@ -1596,4 +1628,31 @@ func hasEffects(p *Prog, f *ssa.Function, depth int) bool {
 		}
 	})
 	return eff
+}
+
+// valueFromOption: v is computed (by !, comparisons, conversions) from a parameter, a captured variable or a field —
+// i.e. from something the caller chose — and from nothing else.
+func valueFromOption(v ssa.Value, d int) bool {
+	if d > 5 {
+		return false
+	}
+	switch x := resolve(v).(type) {
+	case *ssa.Parameter, *ssa.FreeVar:
+		return true
+	case *ssa.UnOp:
+		if x.Op == token.MUL {
+			if _, _, isField := fieldOfLoad(x); isField {
+				return true
+			}
+			return false
+		}
+		return valueFromOption(x.X, d+1)
+	case *ssa.BinOp:
+		_, cx := x.X.(*ssa.Const)
+		_, cy := x.Y.(*ssa.Const)
+		return (cx || valueFromOption(x.X, d+1)) && (cy || valueFromOption(x.Y, d+1)) && !(cx && cy)
+	case *ssa.Convert:
+		return valueFromOption(x.X, d+1)
+	}
+	return false
 }
